@@ -645,7 +645,7 @@ func (r *Run) describe() string {
 	fmt.Fprintf(&sb, " executed schedule: %s; commits:", r.threadSeq())
 	for _, cm := range r.World.commits {
 		if cm.File != "" {
-			if !strings.HasSuffix(cm.File, newSuffix) {
+			if !strings.Contains(cm.File, newSuffix) {
 				fmt.Fprintf(&sb, " #%d t%d.%d file %s", cm.State, cm.Tid, cm.Op, cm.File)
 			}
 			continue
@@ -874,7 +874,7 @@ func Judge(r *Run) hx.Vs {
 			var eff []Commit // effective commits: everything but create-empty / none
 			for _, cm := range byOp[opKey{i, j}] {
 				if cm.File != "" {
-					if op.Kind != opClaim && !strings.HasSuffix(cm.File, newSuffix) { // the staging file of a ring write is no effect of its own
+					if op.Kind != opClaim && !strings.Contains(cm.File, newSuffix) { // the staging file of a ring write is no effect of its own
 						vs.Add("foreign-file-write:"+op.Kind+be, "t%d %s wrote the plain file %s%s", i, op, cm.File, ctx())
 					}
 					continue
@@ -1102,7 +1102,7 @@ func Judge(r *Run) hx.Vs {
 	}
 	// 3: final state
 	for _, p := range r.FinalList {
-		if strings.HasSuffix(p, newSuffix) {
+		if strings.Contains(p, newSuffix) {
 			vs.Add("leftover-new-file"+be, "%s is left behind after all operations returned (it makes every later write of that ring fail)%s", p, ctx())
 		}
 	}
@@ -1211,14 +1211,26 @@ func Judge(r *Run) hx.Vs {
 						}
 					}
 				case kshist.OpList:
-					exp := w.pathsAt(st)
+					// exactly the key rings of that state; entries for stored paths that are no key
+					// rings (plain files of the claim operations, staging files) are tolerated when
+					// such a path exists in that state - whether a listing shows them is not this
+					// property's subject
+					exp := w.ringsAt(st)
 					want = append(want, fmt.Sprint(exp))
 					if res.Err != "" {
 						break
 					}
-					got := append([]string(nil), res.Paths...)
+					var got []string
+					ok := true
+					for _, p := range res.Paths {
+						if _, isRing := w.rings[p]; isRing {
+							got = append(got, p)
+						} else if ex, _ := w.fileAt(p, st); !ex {
+							ok = false
+						}
+					}
 					sort.Strings(got)
-					matched = fmt.Sprint(got) == fmt.Sprint(exp)
+					matched = ok && fmt.Sprint(got) == fmt.Sprint(exp)
 				}
 			}
 			if !matched {
